@@ -262,3 +262,55 @@ C02_UNITS = [
     pkunit("thread2", parker_co=False, kind="blocker", rounds=["park", "tpark"], unparkers=2, unparks_each=1, n=200),
 ]
 PROPS["C02"] = dict(assumptions=["run queues deliver every scheduled coroutine (C01, C03, C04); timer contract (C08)"], units=C02_UNITS)
+
+# ---------------------------------------------------------------------------------------------
+# C15: coroutine-local storage; nothing inherited through the stack pool
+# ---------------------------------------------------------------------------------------------
+def ruunit(kind, n=150):
+    cfg = f"spec/l1/MCReuse_{kind}.cfg"
+    return dict(name="reuse_" + kind, scenario="reuse",
+                tlc=[("spec/l1/MCReuse.tla", cfg)], sim_spec=("spec/l1/MCReuse.tla", cfg),
+                params=dict(kind=kind, pool_capacity=1, workers=8),
+                quick=dict(sim=dict(num=60, depth=80), explore=dict(n=n), dfs=dict(max=n, pb=2)),
+                thorough=dict(sim=dict(num=600, depth=80), explore=dict(n=10 * n), dfs=dict(max=10 * n, pb=3)))
+def clsunit(name, actors, victims, n=300, **kw):
+    return dict(name=name, scenario="cls", params=dict(actors=actors, victims=victims, workers=8, **kw),
+                quick=dict(explore=dict(n=n), dfs=dict(max=n, pb=2)),
+                thorough=dict(explore=dict(n=10 * n), dfs=dict(max=10 * n, pb=3)))
+def ca(name, co=True, rounds=2, end="ret"):
+    return dict(name=name, co=co, rounds=rounds, end=end)
+C15_UNITS = [
+    dict(name="para_matrix",
+         tlc=[("spec/l1/Cls.tla", "spec/l1/MCCls_F14.cfg"), ("spec/l1/Cls.tla", "spec/l1/MCCls.cfg")],
+         tlc_expect_error="FreshStart is violated"),
+    dict(name="reuse_spec_f14",
+         tlc=[("spec/l1/MCReuse.tla", "spec/l1/MCReuse_select_cancel_F14.cfg"), ("spec/l1/MCReuse.tla", "spec/l1/MCReuse_select_cancel.cfg")],
+         tlc_expect_error="StartsClean is violated"),
+] + [ruunit(k) for k in ("normal", "panic", "park_cancel", "sleep_cancel", "tpark_timeout", "select_cancel")] + [
+    dict(ruunit("tpark_timeout"), name="reuse_handle_timeout", params=dict(kind="handle_timeout", pool_capacity=1, workers=8)),
+    clsunit("cls4", [ca("a1"), ca("a2", end="panic"), ca("a3"), ca("t1", co=False, rounds=1)], ["a3"], pool_capacity=1),
+    clsunit("cls_many", [ca("a1", rounds=3), ca("a2", rounds=3), ca("a3", rounds=1), ca("a4", rounds=1, end="panic"), ca("t1", co=False, rounds=2)], ["a1"]),
+]
+PROPS["C15"] = dict(assumptions=["the generator crate gives each generator its own stack and local-data pointer (trusted)"], units=C15_UNITS)
+
+# ---------------------------------------------------------------------------------------------
+# C13: a panic stays in its coroutine; poisoning follows std
+# ---------------------------------------------------------------------------------------------
+def mpunit(name, actors, victims, n=300):
+    return dict(name=name, scenario="mutex", params=dict(actors=actors, victims=victims, workers=8, check_poison=True),
+                quick=dict(explore=dict(n=n), dfs=dict(max=n, pb=2)),
+                thorough=dict(explore=dict(n=10 * n), dfs=dict(max=10 * n, pb=3)))
+C13_UNITS = [
+    dict(name="poison_spec",
+         tlc=[("spec/l2/MCPoison.tla", "spec/l2/MCPoison_F21.cfg"), ("spec/l2/MCPoison.tla", "spec/l2/MCPoison_F21fixed.cfg"),
+              ("spec/l2/MCPoison.tla", "spec/l2/MCPoison.cfg")],
+         tlc_expect_error="PoisonIffPanic is violated"),
+    mpunit("mutex_panic", [co("a1", ["plock"]), co("a2", ["lock", "lock"]), th("a3", ["lock"])], []),
+    mpunit("mutex_cancel_in_guard", [co("a1", ["ylock", "lock"]), co("a2", ["lock", "lock"]), th("a3", ["lock"])], ["a1"]),
+    mpunit("mutex_panic_cancel_pending", [co("a1", ["plock"]), co("a2", ["lock", "lock"]), th("a3", ["lock"])], ["a1"]),
+] + [dict(u, name="rw_" + u["name"]) for u in PROPS["C12"]["units"] if u["name"] in ("panic3", "poisoned3")] \
+  + [dict(ruunit("panic"), name="stack_reuse_after_panic"),
+     clsunit("locals_after_panic", [ca("a1"), ca("a2", end="panic"), ca("a3", end="panic"), ca("a4")], [], pool_capacity=1)] \
+  + [dict(u, name="scope_" + u["name"]) for u in PROPS["C14"]["units"] if u["name"] in ("owner_panic", "child_panic", "child_panic_lifo")] \
+  + [dict(u, name="cq_" + u["name"]) for u in C16_UNITS if u["name"] in ("panic_top", "panic_bottom")]
+PROPS["C13"] = dict(assumptions=["Mutex/RwLock protocols (C05, C12); join contract (C01)"], units=C13_UNITS)
